@@ -203,6 +203,15 @@ package config
 //@   callpre Subscribe @every-added-dependency-is-subscribed-on-both-streams rangeindex + 1 < len(added) && arg1 == added[rangeindex + 1].Name
 //@   callpre Unsubscribe @every-removed-dependency-is-unsubscribed-on-both-streams rangeindex + 1 < len(removed) && arg1 == removed[rangeindex + 1].Name
 
+// ---- C16: dependency messages are handed to the hook one after the other, in the order received: the receive
+// loop calls the hook itself and starts no goroutine (every goroutine a function under contract starts is recorded
+// in the baseline; a new one is reported) ----------------------------------------------------------------------
+
+//@ func (*dependencyDiscoveryClient).run
+//@   alsoprop C16 C08 : calls
+//@   requires c != nil
+//@   modifies all
+
 // ---- C16: a stream wrapper sends exactly one raw request per Send, carrying exactly the two name lists it
 // was given (this is the type contract the subscription client relies on) --------------------------------------
 
